@@ -33,7 +33,7 @@ def check_dirhashes(b, manifest, hist_root, fmts, ignored, tag):
     return ref
 
 
-def order_scenario(tier):
+def order_scenario(tier, deep=False):
     def fn(b, sym):
         b.mkfile("R/f1.txt", 1)
         if sym.flag("has_f2"):
@@ -42,10 +42,11 @@ def order_scenario(tier):
         b.mkfile("R/d/f4.txt", sym.int("cid_f4", 3, 4))  # may equal f3's content
         if sym.flag("has_z"):
             b.mkdir("R/z")
-        if tier != "quick" and sym.flag("has_deep"):
+        if deep:
             b.mkfile("R/d/e/f5.txt", 5)
+            b.mkfile("R/d/e/f6.txt", 6)
         ignored = cm.make_ignored(cm.DEFAULT_IGNORES, "R")
-        fmts = [sym.choose("format", ["md5", "c4"] if tier == "quick" else FMT6)]
+        fmts = [sym.choose("format", ["md5"] if deep else (["md5", "c4"] if tier == "quick" else FMT6))]
         r = b.run("create", root="R", h=fmts)
         b.require(r.exit == 0 and r.exc is None, "create-exit-0", str(r))
         m = b.manifests("R")[-1]
@@ -138,8 +139,11 @@ def harnesses(tier):
                 real_opts={"content_seeds": 48},
                 what="create on root/{f1,f2?,d/{f3,f4},z/?}: recorded directory/root hashes = definition; digests are free values with "
                      "SYMBOLIC ORDER (the solver picks the order that exposes a missing or wrong sort)",
-                bounds={"tree": "root/{f1,f2?,d/{f3,f4(content may equal f3)%s},z/?}" % ("" if tier == "quick" else ",e/{f5}?"),
+                bounds={"tree": "root/{f1,f2?,d/{f3,f4(content may equal f3)},z/?}",
                         "format": "md5|c4 (quick), each of the six (thorough), one per run"}, outside=out),
+    ] + ([Harness("c07-order-deep", order_scenario(tier, deep=True), frontier=4, budget_s=2400, backend={"symbolic_order": True},
+                  real_opts={"content_seeds": 48}, what="the same with a third directory level (d/e/{f5,f6}), md5, symbolic digest order",
+                  bounds={"tree": "root/{f1,f2?,d/{f3,f4,e/{f5,f6}},z/?}", "format": "md5"}, outside=out)] if tier != "quick" else []) + [
         Harness("c07-cmds", scenario(tier), frontier=5, budget_s=2400, real_opts={"content_seeds": 12},
                 what="create, verify -dh -co, in-place rename / edit, second create: recorded and printed values = definition over "
                      "exactly the non-ignored entries; rename keeps content hash and changes structure hash; edit changes content hash",
